@@ -279,6 +279,12 @@ def sorted_symbolic(eng, args, kw, line):
         eng.run.pop()
     le = eng.as_bool(eng.order(ast.GtE() if reverse is True else ast.LtE(), ki, kj, line))
     eq = eng.as_bool(eng.eq(ki, kj))
+    if eng.is_fp(ki):
+        # IEEE keys: the result is only known to be ordered when no key is NaN (comparisons with NaN are all false,
+        # the outcome of the sort is then unspecified beyond being a permutation)
+        nonan = z3.ForAll([i], z3.Implies(inr(i), z3.Not(z3.fpIsNaN(ki.t))))
+        le = z3.Implies(nonan, le)
+        eq = z3.And(nonan, eq)
     eng.run.assume(z3.ForAll([i, j], z3.Implies(z3.And(inr(i), inr(j), i < j), le)), silent=True)
     # stability
     eng.run.assume(z3.ForAll([i, j], z3.Implies(z3.And(inr(i), inr(j), i < j, eq), perm[i] < perm[j])), silent=True)
@@ -333,6 +339,11 @@ def list_method(eng, l, name, args, kw, line):
         eng.run.assume(z3.And(0 <= i, i < n, da[l.ref][i] == x,
                               z3.ForAll([j], z3.Implies(z3.And(0 <= j, j < i), da[l.ref][j] != x))))
         row = eng.def_array([j], z3.If(j >= i, da[l.ref][j + 1], da[l.ref][j]))
+        # implied by the definition of row (old index -> new index), stated with a trigger on the OLD row so that
+        # "every other element is still there" is found by instantiation
+        orow = da[l.ref]
+        eng.run.assume(z3.ForAll([j], z3.Implies(z3.And(0 <= j, j < n, j != i), row[z3.If(j < i, j, j - 1)] == orow[j]),
+                                 patterns=[orow[j]]), silent=True)
         eng.heap.set(nm, z3.Store(da, l.ref, row))
         eng.heap.set('L.len', z3.Store(ln, l.ref, n - 1))
         return None
